@@ -363,5 +363,80 @@ class PageStream(Stream):
         return fails
 
 
+class PinBelongsToFile(Stream):
+    """the URL and hash reported for a distribution belong to the very file whose metadata was read: an index whose links
+    carry a sha256, an md5 or no fragment; a wheel directory that is empty, holds the served file, or holds another file
+    under the same name (an earlier upload, another index); the real PyPIRepository resolves the request"""
+    name = "pin-belongs-to-file"
+    quick_n = 150
+    thorough_n = 6000
+    batch = 50
+
+    def setup(self):
+        import tempfile
+        self.tmp = tempfile.mkdtemp(prefix="rvc14p")
+
+    def teardown(self):
+        import shutil
+        shutil.rmtree(getattr(self, "tmp", ""), ignore_errors=True)
+
+    def generate(self, rng):
+        return {"fragment": rng.choice([True, True, "md5", False]), "pre": rng.choice(["nothing", "same", "other-build", "other-build"]),
+                "dep_served": rng.choice(["dep-a", "dep-b>=1"]), "dep_other": rng.choice(["dep-x", "dep-y<2"])}
+
+    def impl(self, case):
+        import hashlib
+        import os
+        import shutil
+        from rv import backends as B
+        from rv.core import digest
+        from req_compile.repos.pypi import PyPIRepository
+        from req_compile.utils import parse_requirement
+        d = os.path.join(self.tmp, digest(case))
+        wheeldir = os.path.join(d, "wheels")
+        os.makedirs(wheeldir, exist_ok=True)
+        fn = B.wheel_name("foo", "1.0")
+        served = B.wheel_bytes("foo", "1.0", requires=[case["dep_served"]])
+        other = B.wheel_bytes("foo", "1.0", requires=[case["dep_other"]], body="# another build\n")
+        idx = B.FakeIndex("http://idx.example/simple", {"foo": {fn: served}}, with_hash=case["fragment"])
+        if case["pre"] != "nothing":
+            with open(os.path.join(wheeldir, fn), "wb") as f:
+                f.write(served if case["pre"] == "same" else other)
+        B.clear_page_cache()
+        repo = PyPIRepository("http://idx.example/simple", wheeldir)
+        repo.session = B.FakeSession([idx])
+        out = {"served_sha256": hashlib.sha256(served).hexdigest(), "served_md5": hashlib.md5(served).hexdigest()}
+        try:
+            dist, cached = repo.get_dist(parse_requirement("foo"))
+            out["reqs"] = sorted(str(q) for q in dist.reqs)
+            out["hash"] = dist.hash
+            link = dist.candidate.link if getattr(dist, "candidate", None) is not None else None
+            out["link"] = list(link) if link else None
+            with open(os.path.join(wheeldir, fn), "rb") as f:
+                out["file_in_dir_sha256"] = hashlib.sha256(f.read()).hexdigest()
+        except Exception as ex:
+            out["error"] = type(ex).__name__ + ": " + str(ex)[:100]
+        shutil.rmtree(d, ignore_errors=True)
+        return out
+
+    def flags(self, case, r):
+        return ["fragment:%s" % case["fragment"], "pre:" + case["pre"]] + (["error"] if "error" in r else [])
+
+    def oracle(self, case, r):
+        from rv import graphlib as GL
+        if "error" in r:
+            return [("C14/resolve-fails", r)]
+        fails = []
+        want = sorted([str(GL.P(case["dep_served"]))])
+        if r["reqs"] != want:
+            fails.append(("C14/metadata-read-from-another-file-than-the-link", {"link": r["link"], "requirements_of_the_linked_file": want, "reported": r["reqs"]}))
+        if r["hash"]:
+            algo, _, hexd = r["hash"].partition(":")
+            ok = (algo == "sha256" and hexd == r["served_sha256"]) or (algo == "md5" and hexd == r["served_md5"])
+            if not ok:
+                fails.append(("C14/hash-is-not-the-linked-files", {"hash": r["hash"]}))
+        return fails
+
+
 def streams():
-    return [RequiresPythonStream(), NameStream(), PageStream()]
+    return [RequiresPythonStream(), NameStream(), PageStream(), PinBelongsToFile()]
